@@ -4,14 +4,17 @@ import (
 	"crypto"
 	"crypto/ed25519"
 	"crypto/rand"
+	"crypto/sha256"
 	"crypto/x509"
 	"crypto/x509/pkix"
 	"encoding/json"
 	"fmt"
+	"github.com/gr33nbl00d/caddy-revocation-validator/crl/crlstore"
 	"math/big"
 	mrand "math/rand"
 	"os"
 	"path/filepath"
+	"sort"
 	"strings"
 	"time"
 
@@ -367,6 +370,95 @@ func c04ByteSweep(c *vk.Ctx, rng *mrand.Rand) int {
 			if got {
 				c.Violation(fmt.Sprintf("mutated-crl-in-force:alg=%s:region=%s", algClass(alg), map[bool]string{true: "tbs", false: "signature"}[pos < az.built.AlgOff]),
 					fmt.Sprintf("flipping one bit of byte %d of a valid CRL (%s) left it in force: %s", pos, alg, r.Verdict), map[string]any{"alg": alg, "offset": pos, "crl_hex": fmt.Sprintf("%x", der)})
+				break
+			}
+		}
+		az.close()
+	}
+	n += c04RefreshSweep(c, rng)
+	return n
+}
+
+// storeDigest hashes every record of a live store (both backends expose their container).
+func storeDigest(st crlstore.CRLStore) string {
+	h := sha256.New()
+	switch s := unwrapStore(st).(type) {
+	case *crlstore.LevelDbStore:
+		it := s.Db.NewIterator(nil, nil)
+		defer it.Release()
+		for it.Next() {
+			h.Write(it.Key())
+			h.Write(it.Value())
+		}
+	case *crlstore.MapStore:
+		keys := make([]string, 0, len(s.Map))
+		for k := range s.Map {
+			keys = append(keys, fmt.Sprint(k))
+		}
+		sort.Strings(keys)
+		for _, k := range keys {
+			h.Write([]byte(k))
+		}
+		vals := make([]string, 0, len(s.Map))
+		for _, v := range s.Map {
+			vals = append(vals, string(v))
+		}
+		sort.Strings(vals)
+		for _, v := range vals {
+			h.Write([]byte(v))
+		}
+	default:
+		return fmt.Sprintf("unknown store type %T", st)
+	}
+	return fmt.Sprintf("%x", h.Sum(nil))
+}
+
+// c04RefreshSweep: the same single-bit mutations offered to a validator that already has the genuine CRL in force, by way of a
+// refresh (the signature value is the one it has verified before): none of them may replace the genuine list.
+func c04RefreshSweep(c *vk.Ctx, rng *mrand.Rand) int {
+	n := 0
+	for ai, alg := range []string{"ecdsaWithSHA256", "sha256WithRSA"} {
+		if !c.Thorough() && (ai+int(c.Seed))%2 == 1 {
+			continue
+		}
+		az, err := buildAzWorld(azRow{Signer: "issuerCA", Aki: "keyIdOK", Ku: "crlSign", Alg: alg, Mut: "none"}, 2)
+		if err != nil {
+			c.Infra("refresh sweep world: %v", err)
+		}
+		ok, _, err := az.inForce(az.built.DER)
+		if err != nil || !ok {
+			c.Drift("refresh-sweep-baseline-not-in-force")
+			az.close()
+			continue
+		}
+		repo := az.w.V.VerifCRLChecker().VerifRepository()
+		ids := repo.VerifIdentifiers()
+		if len(ids) != 1 {
+			c.Drift("refresh-sweep-entries")
+			az.close()
+			continue
+		}
+		genuine := storeDigest(repo.VerifStore(ids[0]))
+		der := az.built.DER
+		sh, _ := derHeader(der, az.built.SigOff)
+		step := 4
+		if c.Thorough() {
+			step = 1
+		}
+		for pos := az.built.TBSOff + int(c.Seed)%step; pos < len(der); pos += step {
+			if pos >= az.built.AlgOff && pos < az.built.SigOff+sh+1 {
+				continue
+			}
+			mut := append([]byte{}, der...)
+			mut[pos] ^= byte(1 << uint(rng.Intn(8)))
+			az.org.SetBody(pathAz, mut)
+			az.w.RefreshAll()
+			n++
+			c.Eval(fmt.Sprintf("refresh-sweep|%s|%d", alg, pos))
+			if got := storeDigest(repo.VerifStore(ids[0])); got != genuine {
+				c.Violation(fmt.Sprintf("mutated-crl-in-force:alg=%s:region=%s:intake=refresh", algClass(alg), map[bool]string{true: "tbs", false: "signature"}[pos < az.built.AlgOff]),
+					fmt.Sprintf("a refresh fetched the CRL in force with one bit of byte %d flipped (%s) and the store content changed: the mutated list replaced the genuine one", pos, alg),
+					map[string]any{"alg": alg, "offset": pos, "crl_hex": fmt.Sprintf("%x", der)})
 				break
 			}
 		}
